@@ -61,14 +61,16 @@ def write_mc(wd, cfg, mode, invariants=(), prop=None, trace=None, expect_all=Fal
 
 def alphabet(byz, nonmembers, targets, honest_ids, lstar, extra, short=False):
     """Byzantine catalogue: message type x tag (own / another member's) x view (relative to the honest full list lstar)."""
-    views = [tuple(lstar), tuple(sorted(set(lstar) | {extra})), tuple(lstar[:-1]), tuple(reversed(lstar)), tuple(list(lstar) + [lstar[-1]])]
+    # the full list, one member more, one member REPLACED by another identifier (same size), one member less, reversed, a duplicate
+    views = [tuple(lstar), tuple(sorted(set(lstar) | {extra})), tuple(sorted(set(lstar[:-1]) | {extra})), tuple(lstar[:-1]), tuple(reversed(lstar)),
+             tuple(list(lstar) + [lstar[-1]])]
     res = []
     for b in byz:
         for m in targets:
             vws = views + [tuple(x for x in lstar if x != m)]
             for t in (("M", "Q", "R") if not short else ("M", "R")):
                 for tag in [b] + [h for h in honest_ids if h != m][:1]:
-                    for v in (vws if not short else vws[:3]):
+                    for v in (vws if not short else vws[:4]):
                         res.append(Rec(**{"from": b}, to=m, t=t, tag=tag, view=v))
     for x in nonmembers:
         for m in targets:
@@ -131,6 +133,20 @@ def tlc_design(wd, tr):
     return st, trn, ev
 
 
+def liars(byz, targets, lstar, extra):
+    """directed strategies: a 'consistent liar' -- the Byzantine member behaves like an honest one but with a false view throughout
+    (announcement, query and confirmation of the SAME false view to every honest starter).  All messages belong to alphabet()."""
+    views = [tuple(sorted(set(lstar) | {extra})), tuple(sorted(set(lstar[:-1]) | {extra})), tuple(lstar[:-1]), tuple(reversed(lstar))]
+    res = []
+    for b in byz:
+        for v in views:
+            for kinds in (("M", "Q", "R"), ("M", "R")):
+                res.append([{"from": b, "to": m, "t": t, "tag": b, "view": list(v)} for m in targets for t in kinds])
+            for m in targets:
+                res.append([{"from": b, "to": m, "t": t, "tag": b, "view": list(v)} for t in ("M", "Q", "R")])
+    return res
+
+
 def strategies(wd, cfg, k, cap, rng):
     """every set of <= k adversarial messages (TLC enumerates them via the `injected' view); returns lists of adv records"""
     c = dict(cfg)
@@ -155,9 +171,9 @@ def groups_for(pid, tr, wd, rng):
     groups = []
     big = tr == "thorough"
 
-    def case(cfg, adv=(), seed=0, policy="random", deadline=2500, interval=1000):
+    def case(cfg, adv=(), seed=0, policy="random", deadline=2500, interval=1000, rounds=0):
         c = full(cfg)
-        return dict(members=c["Members"], starters=c["Starters"], byz=c["Byz"], nonmembers=c["NonMembers"], e=c["E"],
+        return dict(members=c["Members"], starters=c["Starters"], byz=c["Byz"], nonmembers=c["NonMembers"], e=c["E"], adv_rounds=rounds,
                     deadline_ms=deadline, adv=[dict(a) for a in adv], seed=seed, policy=policy, interval_us=interval)
 
     def honest(name, members, starters, e, n, expect_all=True, expect_none=False, deadline=4000):
@@ -185,6 +201,8 @@ def groups_for(pid, tr, wd, rng):
             cases = []
             for s in strat:
                 cases.append(case(cfg, adv=s, seed=rng.randrange(1 << 30), deadline=100, interval=4000))
+            for s in liars([4], [1, 2, 3], lstar, 5):        # the liar retransmits like an honest member
+                cases.append(case(cfg, adv=s, seed=rng.randrange(1 << 30), deadline=200, interval=4000, rounds=40))
             groups.append(dict(cfg=cfg, expect_all=False, expect_none=False, cases=cases, enumerated=total))
         # one honest starter, one honest member that never invokes, a Byzantine member speaking for itself and for the absent one:
         # every set of <= 4 messages of a focused alphabet (announcement / query / confirmation x own tag / the absent member's tag)
@@ -199,7 +217,28 @@ def groups_for(pid, tr, wd, rng):
         strat, total = strategies(wd, cfg, 3 if big else 2, 200 if not big else 8000, rng)
         log("disc bz2: %d adversarial message sets enumerated by TLC, %d executed" % (total, len(strat)))
         groups.append(dict(cfg=cfg, expect_all=False, expect_none=False, enumerated=total,
-                           cases=[case(cfg, adv=s, seed=rng.randrange(1 << 30), deadline=100, interval=4000) for s in strat]))
+                           cases=[case(cfg, adv=s, seed=rng.randrange(1 << 30), deadline=100, interval=4000) for s in strat]
+                                 + [case(cfg, adv=s, seed=rng.randrange(1 << 30), deadline=200, interval=4000, rounds=40) for s in liars([3], [1, 2], [1, 2, 3], 4)]))
+    if pid == "C07":
+        # ONE honest starter that needs exactly one more member, and a Byzantine member: whatever that member claims (also a view in which
+        # it replaces itself by a stranger, consistently and retransmitted), the starter completes with [1, 3] or not at all
+        cfg = dict(name="bz1", Members=[1, 2, 3], Starters=[1], Byz=[3], NonMembers=[9], E=2, AdvSet=alphabet([3], [9], [1], [1], [1, 3], 4))
+        strat, total = strategies(wd, cfg, 3, 120 if not big else 2000, rng)
+        log("disc bz1: %d adversarial message sets enumerated by TLC, %d executed" % (total, len(strat)))
+        groups.append(dict(cfg=cfg, expect_all=False, expect_none=False, enumerated=total,
+                           cases=[case(cfg, adv=s, seed=rng.randrange(1 << 30), deadline=100, interval=4000) for s in strat]
+                                 + [case(cfg, adv=s, seed=rng.randrange(1 << 30), deadline=200, interval=4000, rounds=40) for s in liars([3], [1], [1, 3], 4)]))
+        # the same Byzantine message sets with every identifier in the UTF-16 surrogate range (0xD800-0xDFFF) / at 0xFFFD: views must be
+        # compared by value whatever the identifiers are (order-preserving renaming of the abstract members)
+        SUR = {"1": 0xD800, "2": 0xD9AB, "3": 0xDABC, "4": 0xDC00, "5": 0xDFFF, "9": 0xFFFD}
+        for g in list(groups):
+            if not g["cfg"].get("Byz"):
+                continue
+            extra = []
+            for i, c in enumerate(g["cases"]):
+                if big or i % 3 == 0 or len(c["adv"]) >= 3:
+                    extra.append(dict(c, idmap=SUR, seed=rng.randrange(1 << 30)))
+            groups.append(dict(g, cases=extra, cfg=dict(g["cfg"], name=g["cfg"]["name"] + "sur")))
     return groups
 
 
